@@ -120,6 +120,10 @@ structure St where
   pin : Bytes
   pout : Bytes
   perr : Bytes
+  /-- fill levels of the three pipes (kept next to the contents: the capacity tests read these) -/
+  nin : Nat
+  nout : Nat
+  nerr : Nat
   /-- writer: payload not yet accepted by the pipe -/
   wleft : Bytes
   /-- polling driver: bytes of the current `write(2)` call still to be moved (the runtime thread is inside the call) -/
@@ -151,7 +155,7 @@ structure St where
 
 /-- `stdinNull`: the child was spawned with `Stdio::null()` for stdin (no writer, immediate EOF) -/
 def init (script : List CAct) (payload : Bytes) (stdinNull : Bool) : St :=
-  { pin := [], pout := [], perr := [], wleft := if stdinNull then [] else payload, wblock := 0,
+  { pin := [], pout := [], perr := [], nin := 0, nout := 0, nerr := 0, wleft := if stdinNull then [] else payload, wblock := 0,
     wepipe := false, wclosed := stdinNull,
     rout := [], routDone := false, rerr := [], rerrDone := false, wt := .idle, fdRefs := 1,
     script, pend := [], pdst := .null, status := none,
@@ -182,6 +186,12 @@ inductive Ev where
   | cStep
   deriving DecidableEq, Repr
 
+/-- `k ≤ l.length`, looking at no more than `k` cells -/
+def atLeast {α : Type} : List α → Nat → Bool
+  | _, 0 => true
+  | [], _ + 1 => false
+  | _ :: r, k + 1 => atLeast r k
+
 def WaitPc.isDone : WaitPc → Bool
   | .done _ => true
   | _ => false
@@ -199,12 +209,12 @@ def depsOk (c : Cfg) (s : St) (a : Act) : Bool :=
 
 /-- size of the `write` call in progress: the rest of a blocking call, else a fresh offer -/
 def offered (c : Cfg) (s : St) : Nat :=
-  if s.wblock = 0 then min c.wchunk s.wleft.length else s.wblock
+  if s.wblock = 0 then (s.wleft.take c.wchunk).length else s.wblock
 
 def stepWr (c : Cfg) (s : St) (k : Nat) : Option St :=
   if depsOk c s .W ∧ s.wepipe = false ∧ s.wclosed = false ∧ s.status = none ∧
-     1 ≤ k ∧ k ≤ offered c s ∧ k ≤ s.wleft.length ∧ s.pin.length + k ≤ c.capIn then
-    some { s with pin := s.pin ++ s.wleft.take k, wleft := s.wleft.drop k,
+     1 ≤ k ∧ k ≤ offered c s ∧ atLeast s.wleft k = true ∧ s.nin + k ≤ c.capIn then
+    some { s with pin := s.pin ++ s.wleft.take k, nin := s.nin + k, wleft := s.wleft.drop k,
                   wsent := s.wsent ++ s.wleft.take k,
                   wblock := if c.blocking then offered c s - k else 0 }
   else none
@@ -222,12 +232,12 @@ def stepWclose (c : Cfg) (s : St) : Option St :=
 def stepRd (c : Cfg) (s : St) (d : Dst) (k : Nat) : Option St :=
   match d with
   | .out =>
-    if depsOk c s .Ro ∧ s.wblock = 0 ∧ s.routDone = false ∧ 1 ≤ k ∧ k ≤ c.rchunk ∧ k ≤ s.pout.length then
-      some { s with rout := s.rout ++ s.pout.take k, pout := s.pout.drop k }
+    if depsOk c s .Ro ∧ s.wblock = 0 ∧ s.routDone = false ∧ 1 ≤ k ∧ k ≤ c.rchunk ∧ atLeast s.pout k = true then
+      some { s with rout := s.rout ++ s.pout.take k, pout := s.pout.drop k, nout := s.nout - k }
     else none
   | .err =>
-    if depsOk c s .Re ∧ s.wblock = 0 ∧ s.rerrDone = false ∧ 1 ≤ k ∧ k ≤ c.rchunk ∧ k ≤ s.perr.length then
-      some { s with rerr := s.rerr ++ s.perr.take k, perr := s.perr.drop k }
+    if depsOk c s .Re ∧ s.wblock = 0 ∧ s.rerrDone = false ∧ 1 ≤ k ∧ k ≤ c.rchunk ∧ atLeast s.perr k = true then
+      some { s with rerr := s.rerr ++ s.perr.take k, perr := s.perr.drop k, nerr := s.nerr - k }
     else none
   | .null => none
 
@@ -280,8 +290,8 @@ def stepCRead (_c : Cfg) (s : St) (k : Nat) : Option St :=
   if s.status = none ∧ s.pend = [] then
     match s.script with
     | .copy lim blk dst :: r =>
-      if 1 ≤ k ∧ k ≤ blk ∧ k ≤ s.pin.length ∧ limOk lim k = true then
-        let s1 := { s with pin := s.pin.drop k, got := s.got ++ s.pin.take k,
+      if 1 ≤ k ∧ k ≤ blk ∧ atLeast s.pin k = true ∧ limOk lim k = true then
+        let s1 := { s with pin := s.pin.drop k, nin := s.nin - k, got := s.got ++ s.pin.take k,
                            script := .copy (limSub lim k) blk dst :: r }
         match dst with
         | .null => some { s1 with sunk := s.sunk + k }
@@ -298,15 +308,15 @@ def stepCEof (_c : Cfg) (s : St) : Option St :=
   else none
 
 def stepCWrite (c : Cfg) (s : St) (k : Nat) : Option St :=
-  if s.status = none ∧ 1 ≤ k ∧ k ≤ s.pend.length then
+  if s.status = none ∧ 1 ≤ k ∧ atLeast s.pend k = true then
     match s.pdst with
     | .out =>
-      if s.pout.length + k ≤ c.capOut then
-        some { s with pout := s.pout ++ s.pend.take k, cout := s.cout ++ s.pend.take k, pend := s.pend.drop k }
+      if s.nout + k ≤ c.capOut then
+        some { s with pout := s.pout ++ s.pend.take k, nout := s.nout + k, cout := s.cout ++ s.pend.take k, pend := s.pend.drop k }
       else none
     | .err =>
-      if s.perr.length + k ≤ c.capErr then
-        some { s with perr := s.perr ++ s.pend.take k, cerr := s.cerr ++ s.pend.take k, pend := s.pend.drop k }
+      if s.nerr + k ≤ c.capErr then
+        some { s with perr := s.perr ++ s.pend.take k, nerr := s.nerr + k, cerr := s.cerr ++ s.pend.take k, pend := s.pend.drop k }
       else none
     | .null => none
   else none
@@ -431,36 +441,22 @@ def mu (s : St) : Nat :=
 /-- the largest transfers possible in `s`, one candidate per kind of event, child first -/
 def candidates (c : Cfg) (s : St) : List Ev :=
   let blk := match s.script with | .copy _ b _ :: _ => b | _ => 0
-  let lim := match s.script with | .copy (some n) _ _ :: _ => n | _ => s.pin.length
-  let free := match s.pdst with | .out => c.capOut - s.pout.length | .err => c.capErr - s.perr.length | .null => 0
-  [ .cStep, .cWrite (min s.pend.length free), .cRead (min (min blk lim) s.pin.length), .cEof,
-    .rd .out (min c.rchunk s.pout.length), .rdEof .out, .rd .err (min c.rchunk s.perr.length), .rdEof .err,
-    .wr (min (min (offered c s) s.wleft.length) (c.capIn - s.pin.length)), .wrEpipe, .wclose,
+  let lim := match s.script with | .copy (some n) _ _ :: _ => n | _ => s.nin
+  let free := match s.pdst with | .out => c.capOut - s.nout | .err => c.capErr - s.nerr | .null => 0
+  [ .cStep, .cWrite (s.pend.take free).length, .cRead (min (min blk lim) s.nin), .cEof,
+    .rd .out (min c.rchunk s.nout), .rdEof .out, .rd .err (min c.rchunk s.nerr), .rdEof .err,
+    .wr (min (offered c s) (c.capIn - s.nin)), .wrEpipe, .wclose,
     .wtStart, .wtReady, .wtTake, .wtDone ]
 
-def pick (c : Cfg) (s : St) : Option Ev :=
-  (candidates c s).find? fun e => (step c s e).isSome
+/-- the first candidate that can fire, fired -/
+def next (c : Cfg) (s : St) : Option St := (candidates c s).findSome? (step c s)
 
 def runCanon (c : Cfg) : Nat → St → St
   | 0, s => s
   | n + 1, s =>
-    match pick c s with
+    match next c s with
     | none => s
-    | some e =>
-      match step c s e with
-      | some s' => runCanon c n s'
-      | none => s
-
-/-- the events chosen by `runCanon` -/
-def canonTrace (c : Cfg) : Nat → St → List Ev
-  | 0, _ => []
-  | n + 1, s =>
-    match pick c s with
-    | none => []
-    | some e =>
-      match step c s e with
-      | some s' => e :: canonTrace c n s'
-      | none => []
+    | some s' => runCanon c n s'
 
 /-- well-formed child program: block sizes are positive -/
 def wfScript : List CAct → Bool
